@@ -1,13 +1,88 @@
 """Property registry: which Verus units / Kani harnesses decide which property."""
 import synt  # syntactic frame checks
 
-T1 = "T1 Reader contract (specs/prelude.rs trait Reader): proved for `impl Reader for Read` by Kani harnesses reader_*; assumed for PaddedSliceRead"
-T2 = "T2 SIMD lane contracts (specs/prelude.rs i8x32/u8x32/m8x32): discharged on real sonic-simd code by Kani under C17"
+T1 = "T1 Reader contract (specs/prelude.rs trait Reader): checked for `impl Reader for Read` by bounded Kani harnesses reader_*; assumed for PaddedSliceRead"
+T2 = "T2 SIMD lane contracts (specs/prelude.rs i8x32/u8x32/m8x32): discharged on the real sonic-simd code for sse2/v128/avx2/v256/v512 by Kani (property C17)"
+T3 = "T3 hand-written models of x86 instructions Kani cannot execute (pmaxub, vpshufb, pclmulqdq, pmaddubsw, pmaddwd, packusdw), from the Intel SDM pseudo-code"
 T4 = "T4 external crates (simdutf8, std String/Vec/Arc, bumpalo, ahash, faststr, bytes, serde, ryu, itoa) assumed correct"
 T5 = "T5 float conversion (sonic_number::parse_float / lemire / slow path) correct rounding assumed"
-T6 = "T6 machine facts: usize is 64-bit, slice length <= isize::MAX, little-endian"
-VSTD = "vstd axioms (Seq, trailing_zeros, wrapping ops) and Z3 are trusted"
-KANI = "Kani/CBMC compilation of MIR and CBMC's bit-precise semantics are trusted; Kani builds the fallback v256/v512 SIMD backend (sse2 for v128)"
+T6 = "T6 machine facts: usize is 64-bit (`global size_of usize == 8`), input length <= 2^62, little-endian"
+T8 = "substitution helpers with assumed contracts: as_array64 (pointer cast of a >=64-byte slice), slice_eq (== on byte slices), as_str (from_utf8_unchecked keeps the bytes)"
+VSTD = "vstd axioms (Seq, trailing_zeros, wrapping/saturating ops, str spec_bytes/reveal_strlit) and Z3 are trusted"
+KANI = "Kani/CBMC compilation of MIR and CBMC's bit-precise semantics are trusted; Kani builds debug_assertions ON and target features OFF (x86 modules are pulled in by #[path])"
+PERR = "Parser::error (error construction) is external_body in the parser units; it is verified separately in unit `errors` (C20)"
+
+TECH_V = "contract-based deductive verification: Verus (Z3) on mechanically extracted real functions"
+TECH_K = "contract-based deductive verification: Kani/CBMC full-domain loop-free harnesses on the real crate"
+TECH_VK = "contract-based deductive verification: Verus (unbounded, extracted real functions) + Kani/CBMC (full-domain bit-precise harnesses)"
+
+
+def K(name, desc, functions=(), package=None, kind="complete", tier="quick", timeout=300, flags=()):
+    return {"name": name, "desc": desc, "functions": list(functions), "package": package, "kind": kind,
+            "tier": tier, "timeout": timeout, "flags": list(flags)}
+
+
+# ---- Kani harness groups -----------------------------------------------------------------------
+K_UNICODE = [
+    K("hex_to_u32_all_quads", "hex_to_u32_nocheck == 4-hex-digit value or >0xFFFF, all 2^32 inputs", ["util::unicode::hex_to_u32_nocheck"]),
+    K("codepoint_to_utf8_all", "codepoint_to_utf8 == RFC 3629 / char::encode_utf8, all u32; writes <= 4 bytes", ["util::unicode::codepoint_to_utf8"]),
+    K("handle_unicode_codepoint_all", "handle_unicode_codepoint_mut == reference (BMP, pairs, lone surrogates, lossy, bad hex), all 12-byte windows x repr; reads in src[0..12), writes in dst[0..4)",
+      ["util::unicode::handle_unicode_codepoint_mut", "util::unicode::repr_utf16_surrogate"]),
+]
+K_STRTAB = [
+    K("escaped_tab_all_rows", "ESCAPED_TAB == RFC 8259 two-character escape table, all 256 rows", ["util::string::ESCAPED_TAB"]),
+]
+K_QUOTE = [
+    K("quote_tab_all_rows", "QUOTE_TAB / NEED_ESCAPED == RFC 8259 serializer escapes, all 256 rows", ["util::string::QUOTE_TAB", "util::string::NEED_ESCAPED"]),
+    K("check_cross_page_sound", "check_cross_page false => the 32-byte read stays in one 4096-byte page, all addresses", ["util::string::check_cross_page"]),
+]
+K_BLOCK = [
+    K("bitmask_before_u32_all", "u32 BitMask::before/first_offset/all_zero == trailing-zero comparison for all disjoint pairs", ["sonic_simd::bits::<u32 as BitMask>"]),
+    K("bitmask_clear_high_bits_u32_all", "u32 clear_high_bits(n) keeps the low 32-n bits, all x, n<32", ["sonic_simd::bits::<u32 as BitMask>::clear_high_bits"]),
+    K("string_block_classification_all", "StringBlock::{has_quote_first,has_unescaped,has_backslash,*_index} == which of quote/backslash/control comes first, all disjoint mask triples",
+      ["util::string::StringBlock::has_quote_first", "util::string::StringBlock::has_unescaped", "util::string::StringBlock::has_backslash"]),
+    K("string_block_new_lanes", "StringBlock::new masks == lane-wise byte classes and are pairwise disjoint, 32 symbolic bytes", ["util::string::StringBlock::new", "util::string::load"]),
+]
+K_BITS = [
+    K("escaped_branchless_u64_all", "get_escaped_branchless_u64 == scalar escaped-bit definition with carry, all 2^65 inputs", ["parser::get_escaped_branchless_u64"]),
+    K("escaped_branchless_u32_all", "get_escaped_branchless_u32 == scalar escaped-bit definition with carry, all 2^33 inputs", ["parser::get_escaped_branchless_u32"]),
+]
+K_WS = [
+    K("is_whitespace_all", "is_whitespace == RFC 8259 ws, all 256 bytes", ["parser::is_whitespace"]),
+    K("nonspace_bits_fallback_all", "fallback get_nonspace_bits lane contract, 64 symbolic bytes", ["util::arch::fallback::get_nonspace_bits"]),
+    K("nonspace_bits_x86_all", "x86 (vpshufb) get_nonspace_bits lane contract, 64 symbolic bytes [T3 model]", ["util::arch::x86_64::get_nonspace_bits"]),
+]
+K_PXOR = [
+    K("prefix_xor_fallback_all", "fallback prefix_xor == prefix parity, all 2^64", ["util::arch::fallback::prefix_xor"]),
+    K("prefix_xor_x86_all", "x86 (pclmulqdq) prefix_xor == prefix parity, all 2^64 [T3 model]", ["util::arch::x86_64::prefix_xor"]),
+]
+_SIMD_FNS = ["loadu", "storeu", "eq", "le", "gt", "splat", "from_slice_unaligned_unchecked", "write_to_slice_unaligned_unchecked"]
+K_SIMD = [K(n, d, [f"sonic_simd::{m}::{f}" for f in _SIMD_FNS], package="sonic-simd") for (n, d, m) in [
+    ("simd_sse2_u8x16", "sse2 Simd128u lane contract (load/store/eq/le/splat), 2x16 symbolic bytes [T3 pmaxub]", "sse2::Simd128u"),
+    ("simd_sse2_i8x16", "sse2 Simd128i lane contract (load/store/eq/le/gt/splat)", "sse2::Simd128i"),
+    ("simd_sse2_mask128", "sse2 Mask128: bitmask / | / & / |= / splat", "sse2::Mask128"),
+    ("simd_v128_u8x16", "portable v128 Simd128u lane contract incl. gt", "v128::Simd128u"),
+    ("simd_v128_i8x16", "portable v128 Simd128i lane contract", "v128::Simd128i"),
+    ("simd_v128_mask128", "portable v128 Mask128 contract", "v128::Mask128"),
+    ("simd_avx2_u8x32", "avx2 Simd256u lane contract, 2x32 symbolic bytes [T3 vpmaxub]", "avx2::Simd256u"),
+    ("simd_avx2_i8x32", "avx2 Simd256i lane contract", "avx2::Simd256i"),
+    ("simd_avx2_mask256", "avx2 Mask256 contract", "avx2::Mask256"),
+    ("simd_v256_u8x32", "portable v256 Simd256u lane contract", "v256::Simd256u"),
+    ("simd_v256_i8x32", "portable v256 Simd256i lane contract", "v256::Simd256i"),
+    ("simd_v256_mask256", "portable v256 Mask256 contract", "v256::Mask256"),
+    ("simd_v512_u8x64", "v512 Simd512u lane contract, 2x64 symbolic bytes", "v512::Simd512u"),
+    ("simd_v512_i8x64", "v512 Simd512i lane contract", "v512::Simd512i"),
+]] + [
+    K("bitmask_u64_all", "u64 BitMask contract (before/first_offset/all_zero/clear_high_bits)", ["sonic_simd::bits::<u64 as BitMask>"], package="sonic-simd"),
+    K("bitmask_u16_all", "u16 BitMask contract", ["sonic_simd::bits::<u16 as BitMask>"], package="sonic-simd"),
+]
+K_STR2INT = [
+    K("str2int_fallback_all", "fallback simd_str2int == value/length of the leading <=need digits, all 16-byte inputs, need<=16",
+      ["sonic_number::arch::fallback::simd_str2int"], package="sonic-number"),
+]
+# x86 simd_str2int (16 harnesses in kani/number_arch.rs): CBMC does not finish in 600 s per case and Kani flags
+# _mm_sub_epi8 (wrapping in hardware) as overflow -> not registered; stated in DESIGN.md.
+
 
 PROPS = {}
 
@@ -15,13 +90,79 @@ PROPS["C08"] = {
     "level": "proof",
     "verus": [{"unit": "skip_number", "rlimit": 200}],
     "kani": [],
-    "trusted_base": [T1, T2, T6, VSTD,
-                     "as_str (from_utf8_unchecked) returns a view of the same bytes (external_body)",
-                     "ryu/itoa produce shortest round-tripping text and the float parser reads it back (T5) — NOT proved"],
+    "trusted_base": [T1, T2, T6, T8, VSTD, PERR,
+                     "ryu/itoa produce shortest round-tripping text and the float parser reads it back (T4,T5) — NOT proved"],
     "level_text": "Verus proof (all inputs, unbounded length) that the real number skipper accepts exactly the RFC 8259 number grammar and returns the verbatim literal; float/integer text round-trip through ryu/itoa is NOT proved (assumed)",
-    "level_note": "Reader contract T1 and SIMD lane contracts T2 assumed in this unit (discharged by Kani under C17/C01); as_str view; ryu/itoa/float parser assumed (T4,T5)",
-    "technique": "contract-based deductive verification: Verus (Z3) on mechanically extracted real functions",
+    "level_note": "Reader contract T1 and SIMD lane contracts T2 assumed in this unit (T2 discharged by Kani under C17); as_str view; ryu/itoa/float parser assumed (T4,T5)",
+    "technique": TECH_V,
     "explanation": "raw-number half: skip_number returns exactly data[start..number_end) and Ok iff the RFC 8259 number grammar matches",
+}
+
+PROPS["C02"] = {
+    "level": "proof",
+    "verus": [{"unit": "recognisers", "rlimit": 200}],
+    "kani": K_STRTAB + K_WS,
+    "trusted_base": [T1, T2, T3, T4, T6, T8, VSTD, KANI, PERR,
+                     "UTF-8 prevalidation (simdutf8) in Read::new_in is T4; the fully-decoding entry points (parse_value*, serde visitors) are not under contract yet"],
+    "level_text": "Verus proof, for every input and length, that the validate-and-skip recogniser (skip_one, skip_array, skip_object, skip_string, skip_escaped_chars, skip_number, parse_literal, skip_space incl. its SIMD cache, parse_trailing) returns Ok iff the RFC 8259 grammar (specs/json_grammar.rs) matches, with the exact end offset; the table/lane contracts it assumes are discharged by Kani",
+    "level_note": "covers the validate-and-skip half of the statement through the checked reader `Read`; the serde visitor layer and the in-place DOM parser are outside (T1 for PaddedSliceRead)",
+    "technique": TECH_VK,
+    "explanation": "skip_one Ok <=> value_end(data, idx) is Some; parse_trailing Ok <=> only whitespace left",
+}
+
+PROPS["C14"] = {
+    "level": "proof",
+    "verus": [{"unit": "recognisers", "rlimit": 200}],
+    "kani": K_STRTAB,
+    "trusted_base": [T1, T2, T4, T6, T8, VSTD, PERR],
+    "level_text": "Verus proof that whenever the validating skipper returns a fragment it is exactly data[ws_end..value_end) of a well-formed RFC 8259 value inside the input (skip_one postcondition), and every skipped string/number/container was well formed",
+    "level_note": "path walkers get_from_object_checked / get_from_array_checked and get_many are not yet under contract; UTF-8 validity of the prefix is simdutf8 (T4)",
+    "technique": TECH_V,
+    "explanation": "skip_one: Ok((slice,_)) ==> slice == data[p..e) with value_end == Some(e)",
+}
+
+PROPS["C17"] = {
+    "level": "proof",
+    "verus": [],
+    "kani": K_SIMD + K_PXOR + K_WS[1:] + K_STR2INT,
+    "trusted_base": [T3, KANI, "aarch64/NEON backend not covered (not this target)", "u8x*::gt is todo!() under sse2/avx2: no call site (syntactic)"],
+    "level_text": "Kani/CBMC proofs over all lane contents that every vector primitive of every x86-64 backend (sse2, portable v128, avx2, portable v256, v512), prefix_xor, get_nonspace_bits and simd_str2int meets one lane-wise scalar contract; two implementations of the same functional contract are observationally equal",
+    "level_note": "instructions Kani cannot execute are replaced by SDM-derived models (T3); codegen differences of target-cpu=native are not modelled",
+    "technique": TECH_K,
+    "explanation": "one contract per primitive, proved for each backend; the Verus units assume exactly these contracts",
+}
+
+PROPS["C09"] = {
+    "level": "proof",
+    "verus": [],
+    "kani": K_UNICODE + K_STRTAB + K_BLOCK,
+    "trusted_base": [T3, T4, KANI, "whole-string decoders (parse_string_inplace, parse_string_escaped) are not yet under contract"],
+    "level_text": "Kani/CBMC complete proofs of the string-decoding kernels: hex quad, UTF-8 encoder, \\u / surrogate-pair handler, escape table, 32-lane block classification",
+    "level_note": "kernels only; independence from length/offset rests on the per-block proofs",
+    "technique": TECH_K,
+    "explanation": "decoding kernels equal their RFC reference definitions on their full input domains",
+}
+
+PROPS["C10"] = {
+    "level": "proof",
+    "verus": [],
+    "kani": K_BITS + K_PXOR,
+    "trusted_base": [T3, KANI, "get_string_bits / skip_container_loop / path walkers not yet under contract"],
+    "level_text": "Kani/CBMC complete proofs of the skipper bit kernels (escaped-bit computation with carry, prefix xor)",
+    "level_note": "kernels only",
+    "technique": TECH_K,
+    "explanation": "bit kernels of the unchecked skipper equal their scalar definitions",
+}
+
+PROPS["C05"] = {
+    "level": "proof",
+    "verus": [],
+    "kani": K_QUOTE,
+    "trusted_base": [KANI, T4, "format_string / escape_unchecked loops and the Compound/Formatter state machine are not yet under contract"],
+    "level_text": "Kani/CBMC complete proofs of the escaper tables (QUOTE_TAB, NEED_ESCAPED == RFC 8259) and the page-crossing guard",
+    "level_note": "tables and guard only",
+    "technique": TECH_K,
+    "explanation": "every table row equals the RFC escape of its byte",
 }
 
 NOT_APPLICABLE = {
